@@ -20,19 +20,16 @@ impl NthChild {
     #[must_use]
     pub const fn has_index(self, index: i32) -> bool {
         let Self { offset, step } = self;
-        // wrap to prevent panic/abort. we won't wrap around anyway, even with a
-        // max offset value (i32::MAX) since index is always more than 0
-        let offsetted = index.wrapping_sub(offset);
+        // NOTE: widen to prevent overflow: `index - offset` doesn't fit into `i32` for a very
+        // negative offset (e.g. `:nth-child(n-2147483648)`), and wrapping it around flips its sign.
+        let offsetted = index as i64 - offset as i64;
+        let step = step as i64;
         if step == 0 {
             offsetted == 0
         } else if (offsetted < 0 && step > 0) || (offsetted > 0 && step < 0) {
             false
         } else {
-            // again, wrap the remainder op. overflow only occurs with
-            // i32::MIN / -1. while the step can be -1, the offsetted
-            // value will never be i32::MIN since this index is always
-            // more than 0
-            offsetted.wrapping_rem(step) == 0
+            offsetted % step == 0
         }
     }
 }
